@@ -148,6 +148,7 @@ namespace
         const long long late      = geti(kv, "late", 3);
         const long long end_ms    = geti(kv, "end_ms", 3000);
         const long long slice_us  = geti(kv, "slice_us", 0);
+        const int nsrc            = (int)std::max<long long>(1, geti(kv, "sources", 1));   // push sources in ONE graph
 
         const auto *ts_int   = ts_type<TS<Int>>();
         const auto *ts_tuple = ts_type<TS<HomogeneousTuple<Int>>>();
@@ -155,7 +156,8 @@ namespace
         const auto *out_ts   = burst ? ts_tuple : ts_int;
         const auto *in_schema = hgraph::testing::single_input_schema(*out_ts);
 
-        PushSourceSender sender;
+        std::vector<PushSourceSender> senders((std::size_t)nsrc);
+        std::atomic<int> started_n{0};
         std::atomic<bool> started{false};
         DateTime start_time = hgraph::testing::wall_now();
 
@@ -163,9 +165,9 @@ namespace
         sink_schema.display_name = "verif_sink";
         sink_schema.input_schema = in_schema;
         sink_schema.node_kind    = NodeKind::Sink;
-        NodeCallbacks cb;
         std::atomic<long long> delivered{0};
-        cb.evaluate = [&](const NodeView &view, DateTime evaluation_time) {
+        auto make_eval = [&](int src) {
+          return [&, src](const NodeView &view, DateTime evaluation_time) {
             auto root   = view.input(evaluation_time);
             auto bundle = root.as_bundle();
             auto input  = bundle[0];
@@ -189,25 +191,36 @@ namespace
             long long pending = -1;
             try
             {
-                auto m = view.graph().node_at(0).inspection_metrics();
+                auto m = view.graph().node_at((std::size_t)src).inspection_metrics();
                 if (m.pending_items.has_value()) pending = (long long)*m.pending_items;
             }
             catch (...) {}
             const DateTime wall = hgraph::testing::wall_now();
             tr.line("D " + std::to_string(us_since(evaluation_time, start_time)) + " " + std::to_string(us_since(wall, start_time)) + " " +
-                    std::to_string(tr.now()) + " " + std::to_string(pending) + " " + std::to_string(n) + ids);
+                    std::to_string(tr.now()) + " " + std::to_string(pending) + " " + std::to_string(n) + ids + " s" + std::to_string(src));
+          };
         };
 
         GraphBuilder builder;
-        PushSourcePolicy pol = policy == "conflate" ? make_push_source_conflating_policy(*ts_int)
-                               : burst              ? make_push_source_burst_policy(*ts_tuple, cap)
-                                                    : make_push_source_queue_policy(*ts_int, cap);
-        builder.add_node(make_push_source_node(*out_ts, pol, [&](PushSourceSender s) {
-            sender = std::move(s);
-            started.store(true, std::memory_order_release);
-        }));
-        builder.add_node(NodeBuilder::native(std::move(sink_schema), std::move(cb), hgraph::testing::single_input_endpoint(*in_schema, *out_ts)));
-        builder.add_edge(GraphEdge{.source_node = make_graph_edge_source(0), .source_path = {}, .target_node = 1, .target_path = {0}});
+        for (int src = 0; src < nsrc; ++src)
+        {
+            PushSourcePolicy pol_s = policy == "conflate" ? make_push_source_conflating_policy(*ts_int)
+                                     : burst              ? make_push_source_burst_policy(*ts_tuple, cap)
+                                                          : make_push_source_queue_policy(*ts_int, cap);
+            builder.add_node(make_push_source_node(*out_ts, pol_s, [&, src](PushSourceSender s) {
+                senders[(std::size_t)src] = std::move(s);
+                if (started_n.fetch_add(1) + 1 == nsrc) started.store(true, std::memory_order_release);
+            }));
+        }
+        for (int src = 0; src < nsrc; ++src)
+        {
+            NodeTypeMetaData sk = sink_schema;
+            NodeCallbacks cbs;
+            cbs.evaluate = make_eval(src);
+            builder.add_node(NodeBuilder::native(std::move(sk), std::move(cbs), hgraph::testing::single_input_endpoint(*in_schema, *out_ts)));
+            builder.add_edge(GraphEdge{.source_node = make_graph_edge_source((std::size_t)src), .source_path = {},
+                                       .target_node = (std::size_t)(nsrc + src), .target_path = {0}});
+        }
 
         start_time = hgraph::testing::wall_now();
         GraphExecutorBuilder eb;
@@ -227,7 +240,7 @@ namespace
             threads.emplace_back([&, p, ps] {
                 std::mt19937_64 rng(ps);
                 while (!started.load(std::memory_order_acquire) && !run_returned.load()) std::this_thread::yield();
-                PushSourceSender s = sender;
+                PushSourceSender s = senders[(std::size_t)(p % nsrc)];
                 const auto pp = split(pacing, ':');
                 for (long long i = 0; i < msgs; ++i)
                 {
@@ -289,7 +302,7 @@ namespace
         {
             const long long id = 900000000 + i;
             const long long c  = tr.now();
-            const bool ok = (i % 2 == 0) ? sender.try_send(Int{id}) : sender.send_blocking(Int{id});
+            const bool ok = (i % 2 == 0) ? senders[0].try_send(Int{id}) : senders[0].send_blocking(Int{id});
             tr.line("P " + std::to_string(tid()) + " late " + std::to_string(id) + " " + std::to_string(c) + " " + std::to_string(tr.now()) + " " + (ok ? "1" : "0"));
         }
     }
